@@ -99,6 +99,12 @@ def materialise(wd, d):
     for r in wd["reads"]:
         ref, vs = seqs[r["chrom"]]
         hp = haps[(r["sample"], r["chrom"], r["hap"])]
+        if r.get("alleles"):
+            # a read that is NOT an error-free copy: explicit alleles at the sites first..last (conflicts / chimeras)
+            al = [wd["truth"][r["sample"]][r["chrom"]][si][r["hap"]] for si in range(len(vs))]
+            for k, a in enumerate(r["alleles"]):
+                al[r["first"] + k] = a
+            hp = W.Haplotype(ref, vs, al)
 
         def seg(i, j):
             m1, m2 = rng.randint(12, 18), rng.randint(12, 18)
